@@ -109,6 +109,7 @@ def all_instances():
     global _loaded
     if not _loaded:
         _loaded = True
-        for m in ('c17', 'c05', 'c01', 'c06'):
-            importlib.import_module('kvlib.props.' + m)
+        import glob, os
+        for f in sorted(glob.glob(os.path.join(os.path.dirname(os.path.abspath(__file__)), 'props', 'c*.py'))):
+            importlib.import_module('kvlib.props.' + os.path.basename(f)[:-3])
     return _INSTANCES
